@@ -319,7 +319,7 @@ class C05Check:
         # ---------------- process exit code: halmos' _main on a project directory holding the same artifacts
         main_phase = None
         if not violations and (zlib.crc32(repr(vec).encode()) + ch.pick(3, "sw.mainphase")) % 3 == 0:
-            main_phase = self.run_main(ch, vec, cj, solver, timeout_s, panic_codes)
+            main_phase = self.run_main(ch, vec, cj, solver, timeout_s, panic_codes, keep_log=keep_log)
             violations.extend(main_phase["violations"])
         out0 = runs[0][0]
         faults = {}
@@ -344,6 +344,8 @@ class C05Check:
             if any(h["kind"] == "truth" and h["truth"] == "sat" and "f_evm_" in h["stdout"] for h in out.stub.history):
                 probes["abstract_model_seen"] = probes.get("abstract_model_seen", 0) + 1
         digest = "|".join(o.sim.digest() for o, _ in runs)
+        if main_phase is not None:
+            digest += "|main:" + main_phase["out"].sim.digest()
         incon = None
         if any(o.stub.wall_timeouts or any(h["wall_timeout"] for h in o.cache.hits) for o, _ in runs):
             incon, violations = "truthful-solver-wall-timeout", []
@@ -357,9 +359,11 @@ class C05Check:
                    vector=vec if vector is not None else None)
         if keep_log:
             res["log"] = [("stdout", out0.stdout[-1500:]), ("warnings", out0.warnings[-10:])] + list(out0.sim.log[-60:])
+            if main_phase is not None:
+                res["log"] += [("main-stdout", main_phase["out"].stdout[-800:])] + list(main_phase["out"].sim.log[-400:])
         return res
 
-    def run_main(self, ch, vec, cj, solver, timeout_s, panic_codes):
+    def run_main(self, ch, vec, cj, solver, timeout_s, panic_codes, keep_log=False):
         """drive halmos' real entry point (argument parsing, artifact loading, per-contract loop, exit code)"""
         import json
         import shutil
@@ -458,7 +462,7 @@ class C05Check:
             irq = None
             if signame:
                 irq = [(sig_steps, deliver)] + ([(sig_steps + sig_second, deliver)] if sig_second is not None else [])
-            out = R.run_under_sim(ch, main, solver=solver, plan=plan, unknown_rate=1.0, max_steps=40000, interrupt=irq)
+            out = R.run_under_sim(ch, main, solver=solver, plan=plan, unknown_rate=1.0, max_steps=40000, interrupt=irq, keep_log=keep_log)
         finally:
             shutil.rmtree(root, ignore_errors=True)
         vio = []
